@@ -31,7 +31,7 @@ func init() { register(c05{}) }
 func (c05) ID() string { return "C05" }
 func (c05) Runs(tier string) int {
 	if tier == "quick" {
-		return 3000
+		return 6000
 	}
 	return 0
 }
